@@ -296,7 +296,11 @@ func (o *c05Oracle) Finish(st *stage.Stage, res *check.Result) {
 							"fan %s: after cycle #%d the PWM file holds %d, last regulating write was %d", fs.ID, n.Index, n.After.Pwm, lastW.Value)
 					}
 				}
-				if directNoLimit(&fs) && n.After.CurveVal == pre.After.CurveVal && n.Before != nil {
+				// a neverStop fan whose rotor stands still is being raised: the request of a raise cycle (old
+				// request + 1) is not what the next cycle asks for, so "the same value as before" only holds
+				// while the fan reports rotation
+				spinning := !fs.NeverStop || (pre.After.RpmAvg >= 1 && n.Before != nil && n.Before.RpmAvg >= 1 && n.After.RpmAvg >= 1)
+				if directNoLimit(&fs) && n.After.CurveVal == pre.After.CurveVal && n.Before != nil && spinning {
 					res.Probe("exact-restore-clause")
 					if n.After.Pwm != pre.After.Pwm {
 						res.Violate("C05", "pwm-restored", "pwm-restored "+sigBase+" map="+mapKind(&fs), n.EndPSeq, n.EndT,
